@@ -261,6 +261,17 @@ class Dec:
         self.depth = 0
         self.seen_align = 4
         self.nested = []     # (data offset, length, sub decoder) of nested buffers
+        self.graph = {}      # address of every separately stored object -> addresses it refers to, in reading order
+        self._kids = []      # stack of the kid lists of the objects being read
+        self.root = None
+
+    def _obj(self, p, fn):
+        """read the object at p with fn(); the offsets followed meanwhile are its referents"""
+        self._kids.append([])
+        try:
+            return fn()
+        finally:
+            self.graph[p] = self._kids.pop()
 
     def need(self, cond, why):
         if not cond: raise FormatError(why)
@@ -279,6 +290,7 @@ class Dec:
         self.need(o < 2**31, "%s offset at %d points backward / too far" % (what, p))
         t = p + o
         self.need(t <= self.n, "%s offset at %d leaves the buffer" % (what, p))
+        if self._kids: self._kids[-1].append(t)
         return t
 
     def string(self, p):
@@ -286,6 +298,7 @@ class Dec:
         self.need(p + 4 + n + 1 <= self.n, "string at %d exceeds buffer" % p)
         self.need(self.b[p + 4 + n] == 0, "string at %d not zero terminated" % p)
         self.spans.append((p, p + 4 + n + 1, "s"))
+        self.graph.setdefault(p, [])
         return ("s", bytes(self.b[p + 4:p + 4 + n]))
 
     def vector(self, p, esz, align):
@@ -294,6 +307,7 @@ class Dec:
         self.need((p + 4) % max(1, align) == 0, "vector data at %d not aligned to %d" % (p + 4, align))
         self.seen_align = max(self.seen_align, align)
         self.spans.append((p, p + 4 + n * esz, "v"))
+        self.graph.setdefault(p, [])
         return n, p + 4
 
     def struct_at(self, p, size, align):
@@ -307,9 +321,13 @@ class Dec:
         if m["kind"] == "t": return self.table(m["a"], t)
         if m["kind"] == "str": return self.string(t)
         self.spans.append((t, t + m["a"], "st"))
+        self.graph.setdefault(t, [])
         return ("st", self.struct_at(t, m["a"], m["b"]))
 
     def table(self, ti, p):
+        return self._obj(p, lambda: self._table(ti, p))
+
+    def _table(self, ti, p):
         self.depth += 1
         self.need(self.depth <= 200, "nesting too deep")
         so = struct.unpack("<i", struct.pack("<I", self.u32(p)))[0]
@@ -351,12 +369,12 @@ class Dec:
                 d[i] = ("v", bytes(self.b[data:data + n]))
             elif k == "sv":
                 t = self.follow(a, "string vector"); n, data = self.vector(t, 4, 4)
-                d[i] = ("sv", [self.string(self.follow(data + 4 * j, "string element"))[1] for j in range(n)])
+                d[i] = ("sv", self._obj(t, lambda: [self.string(self.follow(data + 4 * j, "string element"))[1] for j in range(n)]))
             elif k == "t":
                 d[i] = self.table(f["a"], self.follow(a, "table"))
             elif k == "tv":
                 t = self.follow(a, "table vector"); n, data = self.vector(t, 4, 4)
-                d[i] = [self.table(f["a"], self.follow(data + 4 * j, "table element")) for j in range(n)]
+                d[i] = self._obj(t, lambda: [self.table(f["a"], self.follow(data + 4 * j, "table element")) for j in range(n)])
             elif k == "u":
                 ty = d.get(i - 1, b"\0")[0]
                 self.need(ty != 0, "union value present with type NONE in table at %d" % p)
@@ -369,14 +387,18 @@ class Dec:
                 t = self.follow(a, "union vector"); n, data = self.vector(t, 4, 4)
                 self.need(n == len(types), "union vector length %d differs from type vector length %d" % (n, len(types)))
                 items = []
-                for j in range(n):
-                    o = self.u32(data + 4 * j)
-                    if types[j] == 0:
-                        self.need(o == 0, "union vector element %d has a value with type NONE" % j); items.append(None)
-                    else:
-                        m = next((x for x in self.unions[f["a"]] if (x["code"] & 0xff) == types[j]), None)
-                        self.need(m is not None, "unknown union type %d" % types[j])
-                        items.append(self.member(m, data + 4 * j))
+                self._kids.append([])
+                try:
+                    for j in range(n):
+                        o = self.u32(data + 4 * j)
+                        if types[j] == 0:
+                            self.need(o == 0, "union vector element %d has a value with type NONE" % j); items.append(None)
+                        else:
+                            m = next((x for x in self.unions[f["a"]] if (x["code"] & 0xff) == types[j]), None)
+                            self.need(m is not None, "unknown union type %d" % types[j])
+                            items.append(self.member(m, data + 4 * j))
+                finally:
+                    self.graph[t] = self._kids.pop()
                 d[i] = ("uv", items)
             elif k in ("nt", "ns"):
                 t = self.follow(a, "nested buffer"); n, data = self.vector(t, 1, 1)
@@ -429,6 +451,7 @@ def decode_root(buf, tables, unions, root, with_size, ident, align):
         d.need(o >= 8 and bytes(buf[base + 4:base + 8]) == ident, "identifier missing or different")
     if root[0] == "t":
         d.need(t + 4 <= len(buf), "root table out of range")
+        d.root = t
         v = d.table(root[1], t)
     else:
         v = ("st", d.struct_at(t, root[1], root[2]))
